@@ -121,7 +121,7 @@ def match_known(known, sig):
 
 # ---------------------------------------------------------------- replay
 
-def write_replay(pid, seed, sig, case, detail, name=None):
+def write_replay(pid, seed, sig, case, detail, name=None, origin=None):
     d = os.path.join(OUT, 'replays', pid)
     os.makedirs(d, exist_ok=True)
     from sim import prng
@@ -129,7 +129,7 @@ def write_replay(pid, seed, sig, case, detail, name=None):
     path = os.path.join(d, name)
     with open(path, 'w') as f:
         json.dump({'property': pid, 'engine': ENGINES[pid], 'seed': seed, 'signature': sig,
-                   'detail': detail[:4000], 'case': case}, f, indent=1, sort_keys=True)
+                   'found_by': origin, 'detail': detail[:4000], 'case': case}, f, indent=1, sort_keys=True)
     return path
 
 
@@ -403,11 +403,12 @@ def _main(args, pid):
         if v['sig'] in seen_sigs:
             continue
         seen_sigs.add(v['sig'])
-        path = write_replay(pid, args.seed, v['sig'], small, v.get('detail', ''))
+        origin = v['case'].get('origin') if isinstance(v.get('case'), dict) else None
+        path = write_replay(pid, args.seed, v['sig'], small, v.get('detail', ''), origin=origin)
         ok, out = confirm_replay(pid, path, v['sig'])
         if not ok:
             # fall back to the unminimised case before giving up
-            path = write_replay(pid, args.seed, v['sig'], v['case'], v.get('detail', ''))
+            path = write_replay(pid, args.seed, v['sig'], v['case'], v.get('detail', ''), origin=origin)
             ok, out = confirm_replay(pid, path, v['sig'])
         if not ok:
             print(out[-3000:])
